@@ -14,6 +14,7 @@ import Driver.Sync
 import Driver.Cache
 import Driver.Skeleton
 import Driver.Fold
+import Driver.BulkNames
 open Lean
 
 def dispatch (j : Json) : Json :=
@@ -31,6 +32,7 @@ def dispatch (j : Json) : Json :=
   | "fold" => Driver.handleFold j
   | "propsreq" => Driver.handlePropsReq j
   | "prefilter" => Driver.handlePrefilter j
+  | "bulknames" => Driver.handleBulkNames j
   | "ping" => Driver.obj [("r", Json.str "pong")]
   | _ => Driver.obj [("error", Json.str "bad-model")]
 
